@@ -204,7 +204,7 @@ func main() {
 	}
 	var evals int64
 	accepted := int64(0)
-	for i := 0; i < n; i++ {
+	for i := 0; i < n && (i%4096 != 0 || !res.TimeUp()); i++ {
 		addr, scheme, want, class := genWellFormed(r)
 		var gs, ge string
 		var err error
